@@ -30,6 +30,7 @@ func c05(c *Ctx) {
 	sMatch(c, "R5/S-MATCH")
 	sQuorum(c, "R5/S-QUORUM")
 	sState(c, "R6/S-STATE")
+	c05R7(c, "R7")
 }
 
 func c05R1(c *Ctx, rule string) {
@@ -401,5 +402,52 @@ func minMaxShape(c *Ctx, rule string) {
 			}
 		}
 		c.Check(rule, "util."+name+":meaning", c.P.Pos(fn.Pos()), name+"(a,b) returns the "+pick(name == "min", "smaller", "larger")+" operand for each of the 3 orderings", bad == "", pick(bad == "", "verified over 3 orderings", bad), 3)
+	}
+}
+
+
+// c05R7: commit notifications cannot cross terms. Each term's leader state
+// gets a fresh commitCh, the term's commitment tracker signals on that very
+// channel, and the channel is dropped when leadership ends. (A notification
+// left over from an earlier term would make the next term's leader loop copy
+// the new tracker's still-zero commit index over the real one.)
+func c05R7(c *Ctx, rule string) {
+	f := c.Field(rule, "leaderState", "commitCh")
+	if f == nil {
+		return
+	}
+	sites := c.P.FieldWrites(f)
+	c.WhoMay(rule, "write leaderState.commitCh", sites, map[string]string{
+		"(*Raft).setupLeaderState": "fresh channel per term",
+		"(*Raft).runLeader$defer":  "dropped when leadership ends",
+	})
+	if fn := c.Fn(rule, "(*Raft).setupLeaderState"); fn != nil {
+		r := c.Run(&engine.Automaton{Fn: fn, Tracks: []engine.Track{
+			engine.Event("fresh", func(in ssa.Instruction) bool {
+				v, ok := c.P.StoredValue(in, f)
+				return ok && c.P.D(v) == "make(chan struct{}, 1)"
+			}),
+		}})
+		n := 0
+		for _, s := range c.P.CallsIn(fn, engine.Is("newCommitment")) {
+			n++
+			c.RequireAt(r, rule, "setupLeaderState:commitment-on-fresh-channel", s.Instr, "on every path the term's commitment tracker is created on leaderState.commitCh right after that field received a new channel of capacity 1", func(v engine.View) bool {
+				return v.Seen("fresh") && c.P.Arg(s.Instr, 0) == "recv.leaderState.commitCh"
+			})
+		}
+		if n != 1 {
+			c.Bad(rule, "setupLeaderState:commitment", c.P.Pos(fn.Pos()), "one newCommitment call", fmt.Sprintf("%d", n))
+		}
+	}
+	if fn := c.Fn(rule, "(*Raft).runLeader$defer"); fn != nil {
+		r := c.Run(&engine.Automaton{Fn: fn, Tracks: []engine.Track{
+			engine.Event("dropped", func(in ssa.Instruction) bool {
+				v, ok := c.P.StoredValue(in, f)
+				return ok && c.P.D(v) == "nil"
+			}),
+		}})
+		for i, ret := range engine.ReturnsOf(fn) {
+			c.RequireAt(r, rule, fmt.Sprintf("runLeader$defer:drops-commitCh#%d", i+1), ret, "every exit from leadership clears leaderState.commitCh", func(v engine.View) bool { return v.Seen("dropped") })
+		}
 	}
 }
